@@ -310,6 +310,35 @@ def rule_shapes(ck):
     ck.ob("mpt.step_shape", "step_over_any/breakpoints-only-on-is_stmt-rows", guarded >= 2 and guarded >= len(pushes) - 1, f"{guarded} of {len(pushes)} pushes are under an is_stmt test (the return-address push is the exception)", sv.loc())
 
 
+def rule_epilogue_skip(ck):
+    """code after the first `ret` of a function is not epilogue"""
+    prog = ck.prog
+    ck.rule("cmp.epilogue_skip", "step_over_any leaves out the temporary breakpoints of `epilogue` places: that exclusion must be bounded to the epilogue itself — a test on the address order with the first epilogue marker alone (`place.address > epilogue.address`) also excludes every block the compiler laid out after the function's first return block (the body of a `for` loop, the arms of a branch), and `next` runs through those statements. Accepted: the address comparison is paired with a second test tying the place to the epilogue (same line), or there is no exclusion at all")
+    f = prog.method(DBG, "step_over_any")
+    ck.saw(f)
+    eb_calls = [c for c in f.calls() if c.name.endswith("::epilog_begin")]
+    if not eb_calls:
+        ck.ob("cmp.epilogue_skip", "step_over_any/no-epilogue-exclusion", True, "", f.loc())
+        return
+    gts = [c for c in f.calls() if re.search(r"PartialOrd::(gt|ge|lt|le)$", c.name) and "GlobalAddress" in " ".join(str(g) for g in (c.gargs or [])) and ".address" in expr_str(expr_of(f, c.args[0], depth=6), 6) + expr_str(expr_of(f, c.args[1], depth=6), 6)]
+    gts = [c for c in gts if "epilog_begin" in expr_str(expr_of(f, c.args[0], depth=10), 10) + expr_str(expr_of(f, c.args[1], depth=10), 10)]
+    if not ck.ob("cmp.epilogue_skip", "step_over_any/epilogue-address-test", len(gts) == 1, f"{len(gts)} address comparisons with the epilogue marker", f.loc()):
+        return
+    g = gts[0]
+    # the block(s) entered when the comparison is true: a further test involving line numbers must follow before the skip
+    cuts = switch_cuts_on_call_result(f, lambda cc: cc.bb == g.bb, [0])
+    region = cut_edges_reach(f, f.succ(g.bb), set(), cuts)
+    second = False
+    for b in sorted(region)[:0] or region:
+        t = f.blocks[b]["term"]
+        if t["t"] == "switch" and f.dominates(g.bb, b):
+            e = expr_str(expr_of(f, t["discr"], depth=8), 8)
+            if "line_number" in e and ("Eq(" in e or "eq(" in e or "Ne(" in e):
+                # it must be decided before the place is skipped: the nearest switch after the comparison
+                second = True
+    ck.ob("cmp.epilogue_skip", "step_over_any/exclusion-tied-to-the-epilogue-line", second, "places are excluded by address order alone", f.loc(g.bb), what="`next` runs through the statements laid out after the function's first return block (loop bodies, branch arms) without stopping")
+
+
 def rule_frame_identity(ck):
     """a temporary breakpoint is an address, not an activation: recursion reaches it in other frames"""
     prog = ck.prog
@@ -385,3 +414,4 @@ def run(ck):
     rule_interrupts(ck)
     rule_shapes(ck)
     rule_frame_identity(ck)
+    rule_epilogue_skip(ck)
